@@ -961,35 +961,40 @@ fn socket_scripts() -> Result<u64, String> {
 /// unavailable stage (toolchain missing, timeout) is recorded and is not a verdict.
 fn miri_stage_report(run: &mut Run, prop: &str) {
     let Ok(spec) = std::env::var("HDMC_MIRI_STAGE") else { return };
-    let rc = spec.split_whitespace().find_map(|w| w.strip_prefix("rc=")).unwrap_or("?").to_string();
-    let log = spec.split_whitespace().find_map(|w| w.strip_prefix("log=")).unwrap_or("").to_string();
-    let text = std::fs::read_to_string(&log).unwrap_or_default();
-    let last_case = text.lines().filter(|l| l.starts_with("miri-case")).last().unwrap_or("").to_string();
-    let cases = text.lines().filter(|l| l.starts_with("miri-case")).count() as u64;
-    if let Some(ok) = text.lines().find(|l| l.starts_with("MIRI-STAGE ok")) {
-        run.cov("miri_stage", ok.to_string());
-        run.cov("miri_stage_executions", cases);
+    let dir = spec.split_whitespace().find_map(|w| w.strip_prefix("dir=")).unwrap_or("").to_string();
+    let mut logs: Vec<std::path::PathBuf> = std::fs::read_dir(&dir).map(|d| d.filter_map(|e| e.ok()).map(|e| e.path()).filter(|p| p.extension().map(|x| x == "log").unwrap_or(false)).collect()).unwrap_or_default();
+    logs.sort();
+    if logs.is_empty() {
+        run.cov("miri_stage", "unavailable (no shard logs); not a verdict".to_string());
         return;
     }
-    let mine = |case: &str| (prop == "C18" && case.starts_with("miri-case c18")) || (prop == "C08" && case.starts_with("miri-case c08"));
-    if text.contains("Undefined Behavior") {
-        let what = text.lines().find(|l| l.contains("Undefined Behavior")).unwrap_or("").trim().to_string();
-        if mine(&last_case) {
-            run.violation(format!("miri-ub {}", what.split(':').nth(2).unwrap_or("").trim().chars().take(60).collect::<String>()), format!("miri reports {what} while executing {last_case}"), json!({"engine":"miri","case":last_case,"log":log}));
+    let (mut cases, mut ok_shards, mut summaries) = (0u64, 0u64, vec![]);
+    let mut unavailable = vec![];
+    for lp in &logs {
+        let text = std::fs::read_to_string(lp).unwrap_or_default();
+        let log = lp.display().to_string();
+        let last_case = text.lines().filter(|l| l.starts_with("miri-case")).last().unwrap_or("").to_string();
+        cases += text.lines().filter(|l| l.starts_with("miri-case")).count() as u64;
+        if let Some(ok) = text.lines().find(|l| l.starts_with("MIRI-STAGE ok")) {
+            ok_shards += 1;
+            summaries.push(ok.to_string());
+        } else if text.contains("Undefined Behavior") {
+            let what = text.lines().find(|l| l.contains("Undefined Behavior")).unwrap_or("").trim().to_string();
+            let kind: String = what.split("Undefined Behavior:").nth(1).unwrap_or("").trim().chars().take(70).collect();
+            run.violation(format!("miri-ub {kind}"), format!("miri reports {what} while executing {last_case}"), json!({"engine":"miri","property":prop,"case":last_case,"log":log}));
+        } else if let Some(d) = text.lines().find(|l| l.starts_with("MIRI-STAGE reference disagrees")) {
+            run.violation("miri-reference-disagrees".into(), format!("{d} (under miri, with uninitialised read buffers); {last_case}"), json!({"engine":"miri","property":prop,"case":last_case,"log":log}));
         } else {
-            run.cov("miri_stage", format!("stopped at a case of the other property: {last_case}"));
+            unavailable.push(format!("{} stopped after {} cases", lp.file_name().and_then(|x| x.to_str()).unwrap_or(""), text.lines().filter(|l| l.starts_with("miri-case")).count()));
         }
-        return;
     }
-    if let Some(d) = text.lines().find(|l| l.starts_with("MIRI-STAGE reference disagrees")) {
-        if mine(&last_case) {
-            run.violation("miri-reference-disagrees".into(), format!("{d} (under miri, with uninitialised read buffers); {last_case}"), json!({"engine":"miri","case":last_case,"log":log}));
-        } else {
-            run.cov("miri_stage", format!("stopped at a case of the other property: {last_case}"));
-        }
-        return;
+    run.cov("miri_stage_executions", cases);
+    run.cov("miri_stage_shards_completed", format!("{ok_shards}/{}", logs.len()));
+    if !unavailable.is_empty() {
+        run.cov("miri_stage", format!("partly unavailable ({}); not a verdict", unavailable.join("; ")));
+    } else if ok_shards as usize == logs.len() {
+        run.cov("miri_stage", format!("complete, no undefined behaviour, references agree: {}", summaries.join(" | ")));
     }
-    run.cov("miri_stage", format!("unavailable (rc={rc}, {cases} cases executed before it stopped); not a verdict"));
 }
 
 // -------------------------------------------------------------------------------------------------
@@ -1002,15 +1007,27 @@ fn miri_stage_report(run: &mut Run, prop: &str) {
 /// oracles apply; in addition miri reports undefined behaviour in the `unsafe` blocks of the
 /// adapters (rewind.rs, bridge/io.rs, server/conn/auto.rs) on any of these executions.
 pub fn run_miri_stage(which: &str) -> i32 {
+    // HDMC_MIRI_SHARD = "i/n": this process executes the cases whose running index is i modulo n
+    let (shard, nshards) = std::env::var("HDMC_MIRI_SHARD").ok().and_then(|s| {
+        let (a, b) = s.split_once('/')?;
+        Some((a.parse::<u64>().ok()?, b.parse::<u64>().ok()?.max(1)))
+    }).unwrap_or((0, 1));
     let ads = if which == "C08" { vec![] } else { adapters() };
     let alpha = alphabet(false);
+    let mut idx = 0u64;
     let mut n = 0u64;
     for ad in &ads {
-        for d in 1..=2usize {
+        // stacks that are pure dispatch (no unsafe code of their own underneath) get single steps only
+        let max_d = if ad.name.starts_with("TlsBraid") || ad.name.ends_with("Stream::new") { 1 } else { 2usize };
+        for d in 1..=max_d {
             for code in 0..alpha.len().pow(d as u32) {
                 let seq = decode(code, d, &alpha);
                 for vectored in [false, true] {
                     if vectored && !seq.iter().any(|s| matches!(s.op, Op::WriteVectored | Op::WriteVectoredB)) {
+                        continue;
+                    }
+                    idx += 1;
+                    if idx % nshards != shard {
                         continue;
                     }
                     n += 1;
@@ -1035,6 +1052,10 @@ pub fn run_miri_stage(which: &str) -> i32 {
         for chunks in &shapes {
             for pend in [0u64, u64::MAX] {
                 for out_cap in [1usize, 64] {
+                    idx += 1;
+                    if idx % nshards != shard {
+                        continue;
+                    }
                     m += 1;
                     eprintln!("miri-case c08 stream={name:?} chunks={:?} pending={} out_cap={out_cap}", &chunks[..chunks.len().min(3)], pend != 0);
                     match sniff_once(&stream, chunks, pend, out_cap) {
@@ -1053,6 +1074,6 @@ pub fn run_miri_stage(which: &str) -> i32 {
             }
         }
     }
-    println!("MIRI-STAGE ok c18_sequences={n} c08_sniff_runs={m}");
+    println!("MIRI-STAGE ok shard={shard}/{nshards} c18_sequences={n} c08_sniff_runs={m}");
     0
 }
